@@ -1102,12 +1102,17 @@ static int32 tls13WriteCertificate(ssl_t *ssl, sslBuf_t *out)
                     &extBuf);
             if (rc < 0)
             {
+                psDynBufUninit(&extBuf);
+                psDynBufUninit(&certListBuf);
+                psDynBufUninit(&certBuf);
                 return rc;
             }
 
             extData = psDynBufDetach(&extBuf, &extDataLen);
             if (extData == NULL)
             {
+                psDynBufUninit(&certListBuf);
+                psDynBufUninit(&certBuf);
                 ssl->err = SSL_ALERT_INTERNAL_ERROR;
                 return MATRIXSSL_ERROR;
             }
